@@ -71,6 +71,10 @@ static int ptrcmp(const void *a, const void *b) {
 static bool is_live(qtreetbl_obj_t *o) {
     return nlive && bsearch(&o, live, nlive, sizeof(*live), ptrcmp) != NULL;
 }
+/* a stored/returned value: hex bytes, or N<size> for a NULL data pointer with a non-zero size */
+static void putval(FILE *f, const void *d, size_t n) {
+    if (d == NULL && n > 0) fprintf(f, "N%zu", n); else puthex(f, d, d ? n : 0);
+}
 static void print_next(qtreetbl_obj_t *n) {
     if (!n) printf("~");
     else if (!is_live(n)) printf("!");
@@ -82,7 +86,7 @@ static void shape(qtreetbl_obj_t *o) {
     printf("("); shape(o->left); printf(" ");
     if (o->name == NULL) printf("NULLNAME"); else puthex(stdout, o->name, o->namesize);
     printf("=");
-    puthex(stdout, o->data, o->data ? o->datasize : 0);
+    putval(stdout, o->data, o->datasize);
     printf(o->red ? " r " : " b ");
     printf("%u ", (unsigned) o->tid); print_next(o->next); printf(" ");
     shape(o->right); printf(")");
@@ -116,7 +120,7 @@ int main(void) {
         const char *op = w[0];
         bytes_t k = {0, 0}, v = {0, 0};
         if (nw >= 2 && strcmp(op, "new") && strcmp(op, "quiet") && strncmp(op, "fault", 5) && !unhex(w[1], &k)) { printf("bad-hex\n"); continue; }
-        if (nw >= 3 && !unhex(w[2], &v)) { printf("bad-hex\n"); continue; }
+        if (nw >= 3 && strcmp(op, "putnull") && !unhex(w[2], &v)) { printf("bad-hex\n"); continue; }
         alarm(2);
         if (!strcmp(op, "fault") || !strcmp(op, "faultfrom")) {
             /* arm: fail the k-th allocation (or all from the k-th) inside the next call */
@@ -145,6 +149,14 @@ int main(void) {
             printf("allocs=%ld ", aw_end());
             /* the caller's buffers are released immediately (C12) */
             memset(k.p, 0xAA, k.n); memset(v.p, 0xAA, v.n);
+            printf("%s ", r ? "true" : "false"); state();
+        } else if (!strcmp(op, "putnull") && nw == 3) {
+            /* a NULL data pointer with a size: accepted, stored as (NULL, size) */
+            aw_begin();
+            errno = stale_errno;
+            bool r = tbl->putobj(tbl, k.p, k.n, NULL, (size_t) atol(w[2]));
+            printf("allocs=%ld ", aw_end());
+            memset(k.p, 0xAA, k.n);
             printf("%s ", r ? "true" : "false"); state();
         } else if (!strcmp(op, "get") && nw == 2) {
             size_t sz = 0; cmp_calls = 0;
@@ -192,7 +204,7 @@ int main(void) {
                 if (cur.name == NULL) printf("item NULLNAME ");
                 else {
                     printf("item "); puthex(stdout, cur.name, cur.namesize); printf("=");
-                    puthex(stdout, cur.data, cur.data ? cur.datasize : 0); printf(" ");
+                    putval(stdout, cur.data, cur.datasize); printf(" ");
                 }
                 keep(cur.name, cur.name ? cur.namesize : 0); keep(cur.data, cur.data ? cur.datasize : 0);
                 print_cur(); printf(" "); state();
@@ -204,7 +216,7 @@ int main(void) {
             size_t limit = tbl->num + 3;
             while (tbl->getnext(tbl, &o, true)) {
                 fprintf(mem, " "); puthex(mem, o.name, o.namesize); fprintf(mem, "=");
-                puthex(mem, o.data, o.data ? o.datasize : 0);
+                putval(mem, o.data, o.datasize);
                 vf_free(o.name); vf_free(o.data);
                 if (++n >= limit) break;      /* runaway walk: reported through the count */
             }
@@ -219,7 +231,7 @@ int main(void) {
             if (o.name == NULL) { printf(errno == ENOMEM ? "ENOMEM " : "ENOENT "); state(); }
             else {
                 printf("found "); puthex(stdout, o.name, o.namesize); printf("=");
-                puthex(stdout, o.data, o.data ? o.datasize : 0); printf(" ");
+                putval(stdout, o.data, o.datasize); printf(" ");
                 keep(o.name, o.namesize); keep(o.data, o.data ? o.datasize : 0);
                 cur = o; print_cur(); printf(" "); state();
             }
